@@ -396,7 +396,25 @@ impl<'a> Sim<'a> {
     // rules evaluated after every operation
     // --------------------------------------------------------------------------------------------
 
+    /// True (and the run is ended, unjudged) when the broker reports non-finite money or quantities.
+    pub fn non_finite(&mut self, o: &Obs) -> bool {
+        if self.aborted {
+            return true;
+        }
+        if !(o.cash.is_finite() && o.total.is_finite() && o.liq.is_finite() && o.holdings.values().all(|v| v.is_finite()) && o.pending.values().all(|v| v.is_finite())) {
+            self.ctx.bump("skipped_out_of_domain_non_finite_values");
+            self.aborted = true;
+            return true;
+        }
+        false
+    }
+
     pub fn generic_rules(&mut self, o: &Obs, what: &str) {
+        // non-finite money or quantities (an order sized by a division by an exactly-zero net price,
+        // an overflow): outside every property's domain; the run ends here, unjudged
+        if self.non_finite(o) {
+            return;
+        }
         // C04 ------------------------------------------------------------------------------------
         // 1e-9 relative to the money that moved (sums of large terms can cancel to something tiny)
         let cash_scale = (self.led.gross + self.led.deposits.abs() + self.led.withdrawals.abs()).max(1.0);
@@ -765,6 +783,9 @@ impl<'a> Sim<'a> {
         let out = self.absorb_wire();
         let o1 = self.observe();
         let s1 = self.snapshot();
+        if self.non_finite(&o1) {
+            return;
+        }
         // (orders arriving at the exchange during a cash operation would show up in the pending ledger)
         for q in &out.arrivals {
             self.led.accept_order(q);
@@ -791,6 +812,9 @@ impl<'a> Sim<'a> {
         let out = self.absorb_wire();
         let s1 = self.snapshot();
         let o1 = self.observe();
+        if self.non_finite(&o1) {
+            return;
+        }
         let sent = matches!(e, BrokerEvent::OrderSentToExchange(_));
         ev!(self.ctx, "send {:?} -> {} arrivals={}", spec, if sent { "sent" } else { "refused" }, out.arrivals.len());
         let Some((_bid, ask, _)) = quote else {
@@ -890,6 +914,9 @@ impl<'a> Sim<'a> {
         let out = self.absorb_wire();
         let s1 = self.snapshot();
         let o1 = self.observe();
+        if self.non_finite(&o1) {
+            return;
+        }
         ev!(
             self.ctx, "send_orders {:?} -> {:?} arrivals={}", specs,
             events.iter().map(|e| matches!(e, BrokerEvent::OrderSentToExchange(_))).collect::<Vec<_>>(), out.arrivals.len()
@@ -997,6 +1024,9 @@ impl<'a> Sim<'a> {
         let out = self.absorb_wire();
         let o1 = self.observe();
         let s1 = self.snapshot();
+        if self.non_finite(&o1) {
+            return;
+        }
         ev!(self.ctx, "liquidate {:?} -> {:?} arrivals={}", amt, e, out.arrivals.len());
         let success = matches!(e, BrokerCashEvent::WithdrawSuccess(_));
         let above_cash = amt > o0.cash.max(0.0);
@@ -1033,6 +1063,9 @@ impl<'a> Sim<'a> {
         let out = self.absorb_wire();
         let o1 = self.observe();
         let s1 = self.snapshot();
+        if self.non_finite(&o1) {
+            return;
+        }
         ev!(
             self.ctx, "check -> trades={} arrivals={} cash={:?} failed={} clock={:?} holdings={{{}}} pending={{{}}} liq={:?}",
             out.tick_trades.len(), out.arrivals.len(), o1.cash, o1.failed, self.server_clock(), fmt_map(&o1.holdings), fmt_map(&o1.pending), o1.liq
@@ -1133,6 +1166,13 @@ impl<'a> Sim<'a> {
         let got1 = self.brkr.diff_brkr_against_target_weights(&map1);
         let (exp, zero_gap, negative_budget) = expected_diff(o0, &self.cost_specs, &w);
         ev!(self.ctx, "diff {:?} -> {:?}", w, got1.iter().map(|o| (o.symbol.clone(), o.order_type, o.shares)).collect::<Vec<_>>());
+        if got1.iter().any(|o| !o.shares.is_finite()) || exp.iter().any(|e| !e.2.is_finite()) {
+            // a net price of exactly zero (per-share fee == quote) sizes an order by a division by
+            // zero: outside the domain; nothing is sent and the run ends here, unjudged
+            self.ctx.bump("skipped_out_of_domain_non_finite_values");
+            self.aborted = true;
+            return;
+        }
         let sig = if zero_gap { "zero-gap" } else if negative_budget { "negative-budget" } else { "sizing" };
         if zero_gap {
             self.ctx.bump("probe_diff_zero_gap_symbol");
